@@ -1683,7 +1683,25 @@ impl UnifiedIncomingViewingKey {
             sapling,
             transparent,
         )
-        .ok_or(AddressGenerationError::ShieldedReceiverRequired)
+        .ok_or({
+            // No shielded receiver could be produced. When that is only because `_j` is not a
+            // valid Sapling diversifier index (an allowed, rather than required, Sapling
+            // receiver does not fail above), report it as such so that `find_address` keeps
+            // searching instead of giving up at the first invalid index.
+            #[cfg(feature = "sapling")]
+            if request.sapling != Omit
+                && self
+                    .sapling
+                    .as_ref()
+                    .is_some_and(|divk| divk.address_at(_j).is_none())
+            {
+                AddressGenerationError::InvalidSaplingDiversifierIndex(_j)
+            } else {
+                AddressGenerationError::ShieldedReceiverRequired
+            }
+            #[cfg(not(feature = "sapling"))]
+            AddressGenerationError::ShieldedReceiverRequired
+        })
     }
 
     /// Searches the diversifier space starting at diversifier index `j` for one which will produce
